@@ -165,7 +165,10 @@ func buildSpec(v *t1Vec) *indep.FontSpec {
 		// an explicit array that differs from StandardEncoding at the codes seac uses
 		f.Encoding[97] = "grave"
 		f.Encoding[193] = "a"
+		f.Encoding[194] = "agrave"
 		f.Encoding[40] = "agrave"
+		f.Encoding[41] = "aacute"
+		f.Encoding[42] = "acute"
 	}
 	return f
 }
@@ -330,8 +333,9 @@ func checkT1(v *t1Vec, line int) *disagreement {
 			spec.Subrs = append(spec.Subrs, v.Glyphs.Toks[len(v.Glyphs.Toks)-1]) // a subroutine that calls itself / runs wild
 		}
 	}
+	v.Lay.Lead = line / 3 // binary containers: every legal kind of first cipher byte
 	data, err := indep.WriteFont(spec, v.Lay)
-	lay := fmt.Sprintf("%s lenIV=%d names=%s long=%v enc=%s", v.Lay.Cont, v.Lay.LenIV, v.Lay.Names, v.Lay.LongNum, v.Lay.Enc)
+	lay := fmt.Sprintf("%s lenIV=%d names=%s long=%v enc=%s lead=%d", v.Lay.Cont, v.Lay.LenIV, v.Lay.Names, v.Lay.LongNum, v.Lay.Enc, v.Lay.Lead%11)
 	mk := func(kind, what, obs string) *disagreement {
 		var toks []string
 		for _, t := range v.Glyphs.Toks[len(v.Glyphs.Toks)-1] {
@@ -376,7 +380,7 @@ func checkT1(v *t1Vec, line int) *disagreement {
 			} else if strings.Contains(s, "width") {
 				kind = "width"
 			}
-			if v.Fam == "seac" && name == "agrave" {
+			if v.Fam == "seac" && (name == "agrave" || name == "aacute") {
 				kind = "composite-" + kind
 			}
 			return mk(kind, "the glyph read differs from the glyph described", s)
